@@ -577,12 +577,76 @@ func (run *Run) applyOp(gi int, op string) {
 			}
 			run.tracef("  op g%d asg-bounds min=%d max=%d", gi, g.Min, g.Max)
 		}
+	case "foreign-pod":
+		// a pod that belongs to no group (or to the default group) lands on one of this group's nodes
+		if n := preferTainted(); n != "" {
+			p := env.BuildPod(gi, 200, 128<<20, sim.ShapeSelector)
+			p.Name = "stray-" + p.Name
+			p.Spec.NodeSelector = map[string]string{"team": "other"}
+			p.Spec.Affinity = nil
+			if r.Intn(2) == 0 && !run.K.StatelessClock {
+				// a default-group pod (not in the two-run comparisons: it would, rightly, change the default group)
+				p.Spec.NodeSelector = nil
+			}
+			sim.Bind(p, n)
+			p.Labels = map[string]string{"verif/group": "stray"}
+			env.K.PutPod(p)
+			run.tracef("  op g%d foreign-pod on %s", gi, n)
+		}
+	case "resize-pod":
+		// in-place resize: same pod (same UID), different requests
+		if keys := env.GroupPodKeys(gi); len(keys) > 0 {
+			k := keys[r.Intn(len(keys))]
+			p := env.K.Pods[k]
+			if len(p.Spec.Containers) > 0 && p.Spec.Containers[0].Resources.Requests != nil {
+				c := p.Spec.Containers[0].Resources.Requests[v1.ResourceCPU]
+				p.Spec.Containers[0].Resources.Requests[v1.ResourceCPU] = *resource.NewMilliQuantity(c.MilliValue()/2+int64(r.Intn(300)), resource.DecimalSI)
+				run.tracef("  op g%d resize-pod %s", gi, k)
+			}
+		}
+	case "resize-nodes":
+		// the launch template changes: nodes registered from now on have another size
+		spec := &env.Groups[gi]
+		spec.NodeCPU = pick(r, int64(1000), 1500, 2000, 4000, 3900)
+		spec.NodeMem = pick(r, int64(4<<30), 8<<30, 16<<30, 7500000000)
+		run.tracef("  op g%d resize-nodes cpu=%d mem=%d", gi, spec.NodeCPU, spec.NodeMem)
+	case "drain-group":
+		// every node of the group goes away (instances terminated outside escalator, desired lowered)
+		g := env.ASGOf(gi)
+		if g != nil && g.Min == 0 && env.Groups[gi].Opts.MinNodes == 0 {
+			for _, id := range append([]string(nil), g.Instances...) {
+				env.AWS.Inst[id].State = "terminated"
+			}
+			g.Instances = nil
+			g.Desired = 0
+			run.tracef("  op g%d drain-group", gi)
+		}
+	case "asg-max-down":
+		// someone lowers the cloud group's maximum (never below its current desired capacity)
+		g := env.ASGOf(gi)
+		if g != nil && g.Max > g.Desired && g.Max > 1 {
+			g.Max = g.Desired + int64(r.Intn(int(g.Max-g.Desired)))
+			if g.Max < 1 {
+				g.Max = 1
+			}
+			if g.Max <= g.Min {
+				g.Max = g.Min + 1
+			}
+			run.tracef("  op g%d asg-max-down max=%d", gi, g.Max)
+		}
+	case "refresh-fails":
+		// the next refresh fails once: escalator rebuilds its cloud provider
+		if run.nextFaults == nil {
+			run.nextFaults = &sim.FaultPlan{ByIndex: map[int]sim.FaultKind{0: pick(r, sim.FThrottle, sim.FServerErr)}}
+			run.tracef("  op g%d refresh-fails", gi)
+		}
 	case "fleet-script":
 		// how the cloud answers the next fleet requests
 		env.AWS.Fleet.Groups = pick(r, 1, 1, 2, 3)
 		env.AWS.Fleet.ReadyAfter = pick(r, time.Duration(0), time.Duration(0), time.Second, 3*time.Second, -1)
 		env.AWS.Fleet.WithErrors = r.Intn(4) == 0
 		env.AWS.Fleet.FailMessage = pick(r, "", "", "", "There is no Spot capacity available that matches your request.")
+		env.AWS.Fleet.Empty = r.Intn(8) == 0
 		run.tracef("  op g%d fleet-script %+v", gi, env.AWS.Fleet)
 	case "label-drift":
 		// a node loses / regains the group label
@@ -652,7 +716,7 @@ func (run *Run) Step(s int) *monitor.ScanCtx {
 	}
 	run.nextStale = false
 	rMid := m.Float64()
-	midPick, midKind := m.Intn(1<<30), m.Intn(4)
+	midPick, midKind := m.Intn(1<<30), m.Intn(7)
 	if rMid < k.PMidScan && !opts.StaleView {
 		// something else changes a node between the cache snapshot and escalator's fetch-latest
 		var all []string
@@ -662,12 +726,14 @@ func (run *Run) Step(s int) *monitor.ScanCtx {
 		if len(all) > 0 {
 			victim := all[midPick%len(all)]
 			done := false
-			opts.BeforeGet = func(name string) {
+			change := func(name string) {
 				if done || name != victim {
 					return
 				}
 				done = true
-				switch midKind {
+				switch midKind % 5 {
+				case 4:
+					env.RemoveNodeAndPods(victim)
 				case 0:
 					env.SetCordon(victim, true)
 				case 1:
@@ -679,7 +745,13 @@ func (run *Run) Step(s int) *monitor.ScanCtx {
 				case 3:
 					env.RemoveTaint(victim, sim.EscalatorTaint)
 				}
-				run.tracef("  mid-scan: %s changed (kind %d) between snapshot and GET", victim, midKind)
+				run.tracef("  mid-scan: %s changed (kind %d)", victim, midKind)
+			}
+			if midKind >= 5 {
+				// between escalator's read and its write: the update meets a genuine resourceVersion conflict
+				opts.BeforeUpdate = change
+			} else {
+				opts.BeforeGet = change
 			}
 			opts.MidScan = true
 		}
